@@ -15,6 +15,13 @@ claimed = {
  "C15": ("value provenance (E-FLOW) from every name sink to the name functions + two-path specification of EventType and its typed helper + types.Implements table", "5.C15"),
  "C16": ("path enumeration of register (guards dominate insertion) + lock-region atomicity + who-may-write of the graph + structural recursion check + loop termination certificate", "5.C16"),
  "C17": ("return-value provenance of apply + dominance of err==nil over uses of upcast results + shape check of the typed wrapper", "5.C17"),
+ "C10": ("E-TABLE conformance (types.Implements) + provenance of Read's next offset and event offsets + format analysis of offsets + DSN provenance + SQL token tables + append-only ownership + sibling agreement", "5.C10"),
+ "C11": ("typestate on row loops (Err after Next), path exploration of the range-over-func yield body, loop-exit classification of the paged replay, iterator-protocol typestate with inlining, who-may-call reachability", "5.C11"),
+ "C12": ("dominance / reachability checks on SubscribeWithReplay, provenance of saved offsets (E-FLOW), handle-before-save ordering, hand-off mechanism check", "5.C12"),
+ "C14": ("acknowledge-after-Exec typestate, SQL/pragma token tables, transaction pairing over all paths, who-may-call for file operations", "5.C14"),
+ "C18": ("constant/case exhaustiveness tables, all-path exploration of Apply with the collection applier inlined, string-expression normal form of the key function, lock sets", "5.C18"),
+ "C19": ("all-path exploration of Apply (decode before mutate), struct-tag and constant tables, instruction-class scan of Apply's call tree, provenance of constructor fields", "5.C19"),
+ "C20": ("callback pairing typestate over all paths incl. panic edges, context provenance (E-FLOW), per-path span/counter counting in the otel implementation", "5.C20"),
  "C08": ("context-gate and hook typestate automata over all paths of PublishContext; context provenance (E-FLOW)", "5.C08"),
 }
 names = subprocess.run(['bash','-c','cd /verif && bin/ebucheck list'],capture_output=True,text=True).stdout.split()
@@ -35,7 +42,7 @@ for p in props:
           "level_note":"Trusted: go/types + go/ssa (x/tools v0.50.0, Go 1.26.8), documented semantics of sync, sync/atomic, context, database/sql, and the rule tables in /verif/checker. Nothing of /repo is executed. Known findings are listed in /verif/known_findings.json.",
           "technique":"static analysis: "+tech})
     else:
-        na.append({"property_id":i,"reason":"static check not built yet (work in progress); see DESIGN.md section 5."+i+" for the planned rules"})
+        na.append({"property_id":i,"reason":"no static check registered"})
 m={
  "version":1,
  "setup_cmd":"./setup.sh",
